@@ -57,7 +57,7 @@ A = 'contracts/accessors.c'
 
 
 def acc(fn, serves=('C11', 'C13', 'C18')):
-    return U(fn.replace('__', '_'), A, 'h_' + fn, ['%s/contract_%s' % (fn, fn)], list(serves), timeout=120)
+    return U(fn.replace('__', '_'), A, 'h_' + fn, ['%s/contract_%s' % (fn, fn)], list(serves), timeout=600)
 
 
 CC = 'contracts/copyctors.c'
@@ -389,7 +389,7 @@ UNITS = [
       track_alloc=True, props={'memsafe': ['C13', 'C16']}),
 ] + [U('isDimensionConsistent_%d' % k, PA, 'h_isDimensionConsistent',
          ['Parameter__isDimensionConsistent/contract_Parameter__isDimensionConsistent'], ['C09', 'C10', 'C13', 'C18', 'C19'],
-         unwind=9, timeout=300, level='PB', bound='at most 7 dimensions of at most 255 entries (format capacity); one query per '
+         unwind=9, timeout=1200, level='PB', bound='at most 7 dimensions of at most 255 entries (format capacity); one query per '
          'dimension count 0..7', defines=['VF_NDIMS=%d' % k], sat='kissat') for k in range(8)] + [
     U('Parameter_set_int', PA, 'h_Parameter_set_int', ['Parameter__set__vint_vsz/contract_Parameter__set__vint_vsz'],
       ['C09', 'C10', 'C13', 'C18'],
